@@ -5,6 +5,16 @@ package tcp
 
 // Contracts for the deductive verifier in /verif (govc). Comment-only file.
 
+//@ func getBuffer
+//@   prop C05
+//@   modifies nothing
+//@   ensures @pooled-buffers-are-not-empty len(result) > 0
+//@   assume @ret len(result) > 0
+
+//@ func putBuffer
+//@   prop C05
+//@   modifies nothing
+
 //@ func copyBuffer
 //@   prop C05
 //@   callpre io.CopyBuffer @copies-src-to-dst-with-a-non-empty-buffer arg0 == dst && arg1 == src && len(arg2) > 0
@@ -23,7 +33,6 @@ package tcp
 
 //@ func (*tcpProc).pipeConn
 //@   prop C05
-//@   requires p != nil && src != nil && dst != nil
 //@   modifies all, relayseq, relaycopyat, relaycopydst, relaycopysrc, relaycwat, relaycwconn, relaycrat, relaycrconn
 //@   ensures @copy-then-half-close-the-destination-then-the-source old(relayseq) < relaycopyat && relaycopyat < relaycwat && relaycwat < relaycrat && relayseq == old(relayseq) + 3
 //@   ensures @right-direction relaycopydst == dst && relaycopysrc == src && relaycwconn == dst && relaycrconn == src
@@ -31,8 +40,9 @@ package tcp
 //@ func (*tcpProc).HandleConn
 //@   prop C05 C06 C20
 //@   requires p != nil
-//@   callpre pipeConn @backend-to-client arg1 != arg2
+//@   callpre pipeConn @backend-to-client arg1 == sconn && ifaceloc(arg2) == cconn
 
 //@ func (*tcpProc).HandleConn$3
 //@   prop C05
-//@   callpre pipeConn @client-to-backend arg1 != arg2
+//@   requires done != nil && !closed(done)
+//@   callpre pipeConn @client-to-backend ifaceloc(arg1) == cconn && arg2 == sconn
